@@ -1,1 +1,20 @@
-fn main() { eprintln!("stub"); }
+//! iso_tools: small CLIs over the Rust API of /repo.
+//!   iso_tools fsops sets    --mode c18|c19 --seed S --count N --work DIR [--max-steps M] [--fp-out FILE] [--case I]
+//!   iso_tools fsops project --script FILE
+//! One JSON report line on stdout.
+mod project;
+mod sets;
+mod util;
+
+fn main() {
+    let args: Vec<String> = std::env::args().collect();
+    let report = match (args.get(1).map(|s| s.as_str()), args.get(2).map(|s| s.as_str())) {
+        (Some("fsops"), Some("sets")) => sets::main(&args[3..]),
+        (Some("fsops"), Some("project")) => project::main(&args[3..]),
+        _ => {
+            eprintln!("usage: iso_tools fsops sets|project ...");
+            std::process::exit(64);
+        }
+    };
+    println!("{}", report);
+}
